@@ -146,3 +146,29 @@ def register(reg):
                  reads=['contents', '_localNameToFullName_map', 'parent', 'name'], result_is='enclosing_answer(self, name)',
                  source='abstract method: the enclosing scope answers')
 
+
+    # ---- what is skipped as "only run as a script" ---------------------------------------------------------------
+    # `if __name__ == '__main__':` is the one test whose body the analysis leaves out (it is not executed on import); every other
+    # comparison - `!=`, reversed operands, chained - guards code that does run on import and must be analysed
+    U = 'pydoctor/astutils.py'
+    reg.shape('expr', {}, bases=('AST',))
+    reg.shape('cmpop', {}, bases=('AST',))
+    for k in ('Eq', 'NotEq', 'Is', 'In'):
+        reg.shape(k, {}, bases=('cmpop',))
+    reg.shape('Name', {'id': 'Str'}, bases=('expr',))
+    reg.shape('Constant', {}, bases=('expr',))
+    reg.shape('Compare', {'left': 'Ref[expr]', 'ops': 'Seq[Ref[cmpop]]', 'comparators': 'Seq[Ref[expr]]'}, bases=('expr',))
+    reg.assume_ext('pydoctor.astutils._is_str_constant', params={'expr': 'Ref[expr]', 's': 'Str'}, returns='Bool', pure=True, raises={},
+                   source='isinstance(expr, ast.Constant) and expr.value == s (defined under a version test: not reachable as a function of the module body)')
+    reg.assume_ext('_is_str_constant', params={'expr': 'Ref[expr]', 's': 'Str'}, returns='Bool', pure=True, raises={},
+                   source='isinstance(expr, ast.Constant) and expr.value == s')
+    reg.contract(U, 'is__name__equals__main__', params={'cmp': 'Ref[Compare]'}, returns='Bool', raises={},
+                 ensures=['implies(result, len(cmp.ops) == 1 and isinstance(cmp.ops[0], Eq) and len(cmp.comparators) == 1)',
+                          "implies(result, isinstance(cmp.left, Name) and cast_name(cmp.left).id == '__name__' and _is_str_constant(cmp.comparators[0], '__main__'))",
+                          "implies(len(cmp.ops) == 1 and isinstance(cmp.ops[0], Eq) and len(cmp.comparators) == 1 and isinstance(cmp.left, Name) "
+                          "and cast_name(cmp.left).id == '__name__' and _is_str_constant(cmp.comparators[0], '__main__'), result)"])
+    reg.shape('If', {'test': 'Ref[expr]'}, bases=('AST',))
+    reg.contract(A, 'ModuleVistor.visit_If', params={'node': 'Ref[If]'},
+                 # the body of an `if` is left out (SkipNode) for the script guard and for nothing else
+                 raises={'SkipNode': "isinstance(node.test, Compare) and is__name__equals__main__(cast_compare(node.test))"},
+                 ensures=["not (isinstance(node.test, Compare) and is__name__equals__main__(cast_compare(node.test)))"])
